@@ -130,6 +130,31 @@ def task_fock_rows(ctx):
     ctx.assume_note("shape-bounded: batches [OH, HH] and [OHH, HH+pad]")
 
 
+def replay_pack(shells, molsize):
+    def rp(model):
+        import torch
+        from seqm.seqm_functions.pack import pack, unpack
+
+        torch.set_default_dtype(torch.float64)
+        size = 4 * molsize
+        nH = torch.tensor([s[0] for s in shells])
+        nHy = torch.tensor([s[1] for s in shells])
+        x = torch.arange(len(shells) * size * size, dtype=torch.float64).reshape(len(shells), size, size) + 1.0
+        x0 = pack(x, nH, nHy)
+        back = unpack(x0, nH, nHy, size)
+        bad = []
+        for m, (h, hy) in enumerate(shells):
+            ph = list(range(4 * h)) + [4 * h + 4 * k for k in range(hy)]
+            want = torch.zeros(size, size)
+            for i in ph:
+                for j in ph:
+                    want[i, j] = x[m, i, j]
+            if not torch.equal(back[m], want):
+                bad.append(m)
+        return {"reproduced": bool(bad), "shell_patterns(nHeavy,nHydro)": shells, "molecules_with_wrong_round_trip": bad}
+    return rp
+
+
 def task_pack_unpack(ctx):
     """unpack(pack(x)) = x on the physical orbitals and 0 elsewhere; pack(unpack(y)) = y  (single-matrix, same-shape and
     mixed-shape batch code paths)."""
@@ -143,7 +168,16 @@ def task_pack_unpack(ctx):
     def phys(nH, nHy):
         return list(range(4 * nH)) + [4 * nH + 4 * k for k in range(nHy)]
 
-    cases = [("same", [(1, 2), (1, 2)], 4), ("mixed", [(1, 1), (0, 2)], 2), ("mixed3", [(2, 1), (1, 2)], 4)]
+    # every unordered pair of shell patterns from a grid that contains equal orbital counts with different composition
+    # ((1,4) and (2,0): 8 orbitals), no hydrogens, no heavy atoms, equal patterns
+    grid = [(1, 4), (2, 0), (1, 2), (0, 2), (2, 1), (1, 0), (0, 4)]
+    cases = []
+    for a in range(len(grid)):
+        for b in range(a, len(grid)):
+            sh = [grid[a], grid[b]]
+            cases.append(("%d%d+%d%d" % (grid[a] + grid[b]), sh, max(h + y for h, y in sh)))
+            if a != b:
+                cases.append(("%d%d+%d%d" % (grid[b] + grid[a]), sh[::-1], max(h + y for h, y in sh)))
     for name, shells, molsize in cases:
         size = 4 * molsize
         nH = st.tensor([s[0] for s in shells])
@@ -165,15 +199,21 @@ def task_pack_unpack(ctx):
         for m, (h, hy) in enumerate(shells):
             ph = phys(h, hy)
             norb = 4 * h + hy
+            g1 = []
             for i in range(size):
                 for j in range(size):
                     want = x.a[m, i, j] if (i in ph and j in ph) else S(0.0)
-                    ctx.prove_eq("%s.mol%d.unpack(pack(x))[%d,%d]" % (name, m, i, j), back.a[m, i, j], want)
+                    g1.append(E.eq(back.a[m, i, j].n, E.node_of(want)))
+            ctx.prove("%s.mol%d.unpack(pack(x))=x-on-physical-orbitals-and-0-elsewhere" % (name, m), E.and_(*g1), replay=replay_pack(shells, molsize))
+            g2, g3 = [], []
             for i in range(norb):
                 for j in range(norb):
-                    ctx.prove_eq("%s.mol%d.pack(unpack(y))[%d,%d]" % (name, m, i, j), yy.a[m, i, j], y.a[m, i, j])
-                    ctx.prove_eq("%s.mol%d.pack-picks-physical-orbital[%d,%d]" % (name, m, i, j), x0.a[m, i, j], x.a[m, ph[i], ph[j]])
-    ctx.assume_note("shape-bounded: (nHeavy, nHydro) in {(1,2),(1,1),(0,2),(2,1)}; all matrix entries symbolic")
+                    g2.append(E.eq(yy.a[m, i, j].n, y.a[m, i, j].n))
+                    g3.append(E.eq(x0.a[m, i, j].n, x.a[m, ph[i], ph[j]].n))
+            if g2:
+                ctx.prove("%s.mol%d.pack(unpack(y))=y" % (name, m), E.and_(*g2), replay=replay_pack(shells, molsize))
+                ctx.prove("%s.mol%d.pack-picks-the-physical-orbitals" % (name, m), E.and_(*g3), replay=replay_pack(shells, molsize))
+    ctx.assume_note("shape-bounded: every ordered pair of (nHeavy, nHydro) from {(1,4),(2,0),(1,2),(0,2),(2,1),(1,0),(0,4)} (includes equal orbital counts with different composition); all matrix entries symbolic")
 
 
 ALLOWED_COUPLINGS = {
